@@ -4,6 +4,7 @@
 -/
 import NngModel.Proofs.ReqPlace
 import NngModel.Proofs.ReqInv
+import NngModel.Generated.C04REQ
 namespace Nng.Req
 open Nng Nng.Proto
 
